@@ -3,6 +3,7 @@ import BV.Common.Hex
 import BV.Common.Sha256
 import BV.C11.Model
 import BV.C11.Spec
+import BV.C11.Algo
 namespace BV.C11.Driver
 open BV.Hex BV.Secp256k1 BV.C11
 
@@ -11,6 +12,12 @@ def hex32 (v : Nat) : String := listToHex (toBE 32 v)
 def showSig : Option (Nat × Nat) → String
   | some (r, s) => s!"ok {hex32 r} {hex32 s} {listToHex (serializeDER r s)}"
   | none => "err"
+
+def b01 (b : Bool) : String := if b then "1" else "0"
+
+def showPoint : Point → String
+  | .inf => "inf"
+  | q => listToHex (serializeCompressed q)
 
 def handle : List String → String
   | ["der", h] => match hexToList? h with
@@ -21,6 +28,72 @@ def handle : List String → String
     | none => "bad-op"
   | ["ser", r, s] => match hexToNat? r, hexToNat? s with
     | some r, some s => listToHex (serializeDER r s)
+    | _, _ => "bad-op"
+  | ["ssig", h] => match hexToList? h with
+    | some b => match parseSchnorrSig b with
+      | some (r, s) => "ok " ++ listToHex (serializeSchnorrSig r s)
+      | none => "err"
+    | none => "bad-op"
+  | ["xonly", h] => match hexToList? h with
+    | some b => match parseXOnly b with
+      | some q => s!"ok {listToHex (serializeCompressed q)} {listToHex (serializeXOnly q)}"
+      | none => "err"
+    | none => "bad-op"
+  | ["pub", h] => match hexToList? h with
+    | some b => match parsePubKey b with
+      | some q => s!"ok {listToHex (serializeCompressed q)} {listToHex (serializeUncompressed q)}"
+      | none => "err"
+    | none => "bad-op"
+  | ["mulchk", k, pk] => match hexToNat? k, hexToList? pk with
+    | some k, some pk => match parsePubKey pk with
+      | some q => s!"{showPoint (mul k q)} {showPoint (mulAffine k q)}"
+      | none => "err"
+    | _, _ => "bad-op"
+  | ["ecdsav", mode, msg, sig, pk] => match hexToList? msg, hexToList? sig, hexToList? pk with
+    | some msg, some sig, some pk =>
+      match (if mode == "d" then Spec.parseDER sig else parseLax sig), parsePubKey pk with
+      | some (r, s), some q => b01 (ecdsaVerify msg r s q)
+      | _, _ => "err"
+    | _, _, _ => "bad-op"
+  | ["ecdsas", d, msg] => match hexToNat? d, hexToList? msg with
+    | some d, some msg => match ecdsaSign d msg with
+      | some (r, s, _) => s!"{listToHex (serializeDER r s)} {b01 (ecdsaVerify msg r s (mulG d))}"
+      | none => "err"
+    | _, _ => "bad-op"
+  | ["compact", d, msg, c] => match hexToNat? d, hexToList? msg with
+    | some d, some msg => match signCompact d msg (c == "1") with
+      | some sig => match recoverCompact sig msg with
+        | some (q, wc) => s!"{listToHex sig} {showPoint q} {b01 wc}"
+        | none => s!"{listToHex sig} err"
+      | none => "err"
+    | _, _ => "bad-op"
+  | ["rec", sig, msg] => match hexToList? sig, hexToList? msg with
+    | some sig, some msg => match recoverCompact sig msg with
+      | some (q, wc) => s!"ok {showPoint q} {b01 wc}"
+      | none => "err"
+    | _, _ => "bad-op"
+  | ["schv", msg, sig, pk] => match hexToList? msg, hexToList? sig, hexToList? pk with
+    | some msg, some sig, some pk =>
+      match parseSchnorrSig sig, parseXOnly pk with
+      | some (r, s), some q => b01 (schnorrVerify r s msg (serializeXOnly q))
+      | _, _ => "err"
+    | _, _, _ => "bad-op"
+  | ["schs", d, msg, aux] => match hexToNat? d, hexToList? msg with
+    | some d, some msg =>
+      let aux? : Option (Option Bytes) := if aux == "rfc" then some none else (hexToList? aux).map some
+      match aux? with
+      | some a => match schnorrSign d msg a with
+        | some (r, s) => s!"{listToHex (serializeSchnorrSig r s)} {b01 (schnorrVerify r s msg (serializeXOnly (mulG d)))}"
+        | none => "err"
+      | none => "bad-op"
+    | _, _ => "bad-op"
+  | ["ecdh", d, pk] => match hexToNat? d, hexToList? pk with
+    | some d, some pk => match parsePubKey pk with
+      | some q => listToHex (sharedSecret d q)
+      | none => "err"
+    | _, _ => "bad-op"
+  | ["ecdh2", a, b] => match hexToNat? a, hexToNat? b with
+    | some a, some b => s!"{listToHex (sharedSecret a (mulG b))} {listToHex (sharedSecret b (mulG a))}"
     | _, _ => "bad-op"
   | _ => "bad-op"
 
